@@ -1,16 +1,17 @@
-(** Proofs about the Sacramento model (Kernels/Sacramento.v, model of /repo/models/rr/sacramento.go), C10.
+(** Proofs about the Sacramento model (Kernels/Sacramento.v), C10 -- version for the REPAIRED code
+    (hooks/fix-sacramento-guards.diff: ratio >= 0, fracp <= 1, adimc capped at uztwm+lztwm; and
+    hooks/fix-sacramento-e5-nonneg.diff: the ADIMP evaporation e5 clamped at 0).
 
     Proved for all p satisfying [sac_ok] and all inputs:
       - [sac_uh_normalised]      the unit hydrograph is non-negative, has 5 ordinates and sums to 1
       - [sac_channel_ok]         channel phase: outputs non-negative, baseflow <= runoff, UH buffer stays
                                  non-negative, and a water budget of the channel (no water created)
       - [sac_components_add_up]  runoff = surface + baseflow (unconditional)
-      - [sacramento_c10_partial] step-level statement, CONDITIONAL on the land-phase quantities being
-                                 non-negative (that invariant is not proved; it fails for some p)
-    Refuted with concrete witnesses (the Go port dropped two guards of the Fortran original):
-      - [sac_adimc_bound_refuted], [sac_adimc_negative_refuted]
-      - [sac_lzfsc_negative_refuted], [sac_lzfsc_negative_run_refuted]
-    The witnesses were replayed on the real Go code through harness/bin/owrun (same numbers). *)
+      - [sac_step_flows_ok], [sac_step_aet_nonneg], [sacramento_c10_partial]: step-level statements
+        conditional on land-phase quantities being non-negative (discharged in SacramentoLand.v)
+    Regression on the witnesses that broke the unrepaired code ([sac_adimc_bound_fixed],
+    [sac_adimc_negative_fixed], [sac_adimc_ratio_negative_fixed], [sac_lzfsc_negative_fixed],
+    [sac_aet_negative_fixed]). *)
 From Coq Require Import Reals Lra Lia List Bool ZArith.
 From OW Require Import Base.Arith Base.RInst Base.Mealy Kernels.Sacramento KernelProofs.RRCommon.
 Import ListNotations.
@@ -178,7 +179,41 @@ Proof.
   refine (conj _ (conj _ (conj _ (conj Cqf (conj Hri (conj Ha Cq)))))); lra.
 Qed.
 
-(** * 4. refutations *)
+
+(** the flow conjuncts need only the four accumulated flows to be non-negative ... *)
+Theorem sac_step_flows_ok : forall p st io, sac_ok p = true -> qq_ok (qq st) -> 0 <= snd io ->
+  let l := sac_land p st io in
+  0 <= i_flosf (l_v l) -> 0 <= i_roimp (l_v l) -> 0 <= i_floin (l_v l) -> 0 <= i_flobf (l_v l) ->
+  let o := snd (sac_step p st io) in
+  o_runoff o = o_surface o + o_baseflow o /\ 0 <= o_baseflow o <= o_runoff o /\ 0 <= o_surface o /\
+  0 <= o_runoff o /\ 0 <= o_imperv o /\ qq_ok (qq (fst (sac_step p st io))).
+Proof.
+  intros p st io H Hq He l Hsf Hri Hin Hbf o.
+  pose proof (sac_channel_ok p (qq st) (snd io) _ _ _ _ H Hq He Hsf Hri Hin Hbf) as Hc.
+  cbv zeta in Hc. destruct Hc as (Cq & Ce4 & Cbf & Cqf & _).
+  unfold o, sac_step. fold l.
+  cbn [fst snd o_runoff o_surface o_baseflow o_imperv o_aet qq]. runfold.
+  refine (conj _ (conj _ (conj _ (conj Cqf (conj Hri Cq))))); lra.
+Qed.
+
+(** ... and the actual ET additionally the four evaporation components *)
+Theorem sac_step_aet_nonneg : forall p st io, sac_ok p = true -> qq_ok (qq st) -> 0 <= snd io ->
+  let l := sac_land p st io in
+  0 <= i_flosf (l_v l) -> 0 <= i_roimp (l_v l) -> 0 <= i_floin (l_v l) -> 0 <= i_flobf (l_v l) ->
+  0 <= l_e1 l -> 0 <= l_e2 l -> 0 <= l_e3 l -> 0 <= l_e5 l ->
+  0 <= o_aet (snd (sac_step p st io)).
+Proof.
+  intros p st io H Hq He l Hsf Hri Hin Hbf H1 H2 H3 H5.
+  pose proof (sac_channel_ok p (qq st) (snd io) _ _ _ _ H Hq He Hsf Hri Hin Hbf) as Hc.
+  cbv zeta in Hc. destruct Hc as (_ & Ce4 & _).
+  sac_ok_split H.
+  unfold sac_step. fold l. cbn [snd o_aet]. runfold.
+  pose proof (Rmult_le_pos _ _ H1 (ltac:(lra) : 0 <= 1 - adimp p - pctim p)).
+  pose proof (Rmult_le_pos _ _ H2 (ltac:(lra) : 0 <= 1 - adimp p - pctim p)).
+  pose proof (Rmult_le_pos _ _ H3 (ltac:(lra) : 0 <= 1 - adimp p - pctim p)).
+  pose proof (Rmult_le_pos _ _ H5 Hok10). fold l in Ce4. lra.
+Qed.
+
 Lemma Rpow_0 x : Rpow x 0 = 1.
 Proof. unfold Rpow. destruct (Req_EM_T 0 0); [reflexivity|contradiction]. Qed.
 
@@ -229,34 +264,6 @@ Definition sac_wit_b_c : sac_pass_c (T:=R) :=
 Definition sac_wit_b_v : sac_inner (T:=R) :=
   {| i_adimc := 50; i_alzfpc := 0; i_alzfsc := 9/10; i_flobf := 0; i_uzfwc := 4; i_floin := 0;
      i_lztwc := 0; i_flosf := 0; i_roimp := 0 |}.
-
-Lemma sac_wit_b_eval :
-  sac_inc sac_wit_b 50 sac_wit_b_c sac_wit_b_v =
-  {| i_adimc := 50; i_alzfpc := 36/5; i_alzfsc := -(23/10); i_flobf := 0; i_uzfwc := 0; i_floin := 0;
-     i_lztwc := 0; i_flosf := 0; i_roimp := 0 |}.
-Proof.
-  unfold sac_inc, sac_wit_b, sac_wit_b_c, sac_wit_b_v. sac_proj. runfold.
-  repeat eval1. sac_proj. apply sac_inner_ext; lra.
-Qed.
-
-(** (b) one iteration of the drainage / percolation loop from a state inside all store bounds drives
-    the supplemental lower-zone free-water content negative: percs = min(alzfsm - alzfsc,
-    percfw * (1 - fracp)) with fracp = hpl*2*ratlp/(ratlp+ratls) > 1 when the primary store is emptier
-    than the supplemental one and lzfpm > lzfsm (the Fortran original caps fracp at 1).
-    Here hpl = 0.99, ratlp = 1, ratls = 0.1, fracp = 1.8, percfw = 4, percs = -3.2. *)
-Theorem sac_lzfsc_negative_refuted : exists p uztwc_ c v, sac_ok p = true /\
-  0 <= uztwc_ <= uztwm p /\
-  0 <= i_uzfwc v <= uzfwm p /\ 0 <= i_lztwc v <= lztwm p /\
-  0 <= i_alzfpc v <= lzfpm p * (1 + side p) /\ 0 <= i_alzfsc v <= lzfsm p * (1 + side p) /\
-  0 <= c_pinc c /\ 0 < c_dinc c <= 1 /\ 0 <= c_duz c <= 1 /\ 0 <= c_dlzp c <= 1 /\ 0 <= c_dlzs c <= 1 /\
-  uztwc_ <= i_adimc v /\ i_adimc v <= uztwm p + lztwm p /\
-  0 <= i_flobf v /\ 0 <= i_floin v /\ 0 <= i_flosf v /\ 0 <= i_roimp v /\
-  i_alzfsc (sac_inc p uztwc_ c v) < 0.
-Proof.
-  exists sac_wit_b, 50, sac_wit_b_c, sac_wit_b_v.
-  rewrite sac_wit_b_eval. split; [unfold sac_wit_b; sac_ok_solve|].
-  unfold sac_wit_b, sac_wit_b_c, sac_wit_b_v; sac_proj. lra.
-Qed.
 
 (** [int(math.Floor(x))] at a concrete x *)
 Lemma Int_part_between x k : IZR k <= x < IZR k + 1 -> Int_part x = k.
@@ -339,6 +346,7 @@ Definition mk_inner (a1 a2 a3 a4 a5 a6 a7 a8 a9 : R) : sac_inner (T:=R) :=
   {| i_adimc := a1; i_alzfpc := a2; i_alzfsc := a3; i_flobf := a4; i_uzfwc := a5; i_floin := a6;
      i_lztwc := a7; i_flosf := a8; i_roimp := a9 |}.
 
+(** ** the witnesses that broke the unrepaired code, on the repaired code *)
 Lemma sac_wit_a_land1 :
   l_uztwc (sac_land sac_wit_a (sac_init sac_wit_a 0 0 0 0 0 0) (54, 0)) = 50 /\
   l_v (sac_land sac_wit_a (sac_init sac_wit_a 0 0 0 0 0 0) (54, 0)) =
@@ -349,27 +357,20 @@ Proof.
 Qed.
 
 Lemma sac_wit_a_pass1 :
-  sac_pass sac_wit_a 50 1 4 (mk_inner 50 0 0 0 0 0 0 0 (27/50)) = mk_inner 54 0 0 0 4 0 0 0 (27/50).
+  sac_pass sac_wit_a 50 1 4 (mk_inner 50 0 0 0 0 0 0 0 (27/50)) = mk_inner 51 0 0 0 4 0 0 0 (27/50).
+Proof. unfold sac_wit_a, mk_inner. eval_pass. eval_inc. Qed.
+
+(** defaults with lztwm = 1 mm, one 54 mm day from the empty state: the additional-impervious store
+    now stops at its capacity uztwm + lztwm = 51 (it was 54) *)
+Theorem sac_adimc_bound_fixed :
+  adimc (fst (sac_run sac_wit_a (sac_init sac_wit_a 0 0 0 0 0 0) [(54, 0)])) = uztwm sac_wit_a + lztwm sac_wit_a.
 Proof.
-  unfold sac_wit_a, mk_inner. eval_pass. eval_inc.
+  unfold sac_run. rewrite run_fst_cons. cbn [run fst].
+  destruct sac_wit_a_land1 as [E1 E2]. rewrite sac_wit_a_pass1 in E2.
+  destruct (st6_step _ _ _ _ _ E1 E2) as (_ & _ & _ & E & _).
+  rewrite E. unfold sac_wit_a, mk_inner; sac_proj. lra.
 Qed.
 
-(** (a) the additional-impervious store exceeds its capacity uztwm + lztwm after one wet day from the
-    empty state: documented defaults except lztwm = 1 mm *)
-Theorem sac_adimc_bound_refuted : exists p io, sac_ok p = true /\ io_nonneg io /\
-  let st := fst (sac_run p (sac_init p 0 0 0 0 0 0) io) in
-  adimc st > uztwm p + lztwm p.
-Proof.
-  exists sac_wit_a, [(54, 0)]. split; [unfold sac_wit_a; sac_ok_solve|]. split.
-  - repeat constructor; cbn; lra.
-  - cbv zeta. unfold sac_run. rewrite run_fst_cons. cbn [run fst].
-    destruct sac_wit_a_land1 as [E1 E2]. rewrite sac_wit_a_pass1 in E2.
-    destruct (st6_step _ _ _ _ _ E1 E2) as (_ & _ & _ & E & _).
-    rewrite E. unfold sac_wit_a, mk_inner; sac_proj. lra.
-Qed.
-
-(** second witness: additionally lzpk = lzsk = 0 and uzk = 1, so that the whole computation is rational
-    (no percolation demand, no fractional powers) *)
 Definition sac_wit_n : sac_par (T:=R) :=
   {| lzpk := 0; lzsk := 0; uzk := 1; uztwm := 50; uzfwm := 40; lztwm := 1; lzfsm := 25;
      lzfpm := 60; pfree := 6/100; rexp := 1; zperc := 40; side := 0; ssout := 0; pctim := 1/100;
@@ -385,12 +386,12 @@ Proof.
 Qed.
 
 Lemma sac_wit_n_pass1 :
-  sac_pass sac_wit_n 50 1 4 (mk_inner 50 0 0 0 0 0 0 0 (27/50)) = mk_inner 54 0 0 0 4 0 0 0 (27/50).
+  sac_pass sac_wit_n 50 1 4 (mk_inner 50 0 0 0 0 0 0 0 (27/50)) = mk_inner 51 0 0 0 4 0 0 0 (27/50).
 Proof. unfold sac_wit_n, mk_inner. eval_pass. eval_inc. Qed.
 
-Lemma sac_wit_n_land2 st : st6 st 50 4 0 54 0 0 ->
+Lemma sac_wit_n_land2 st : st6 st 50 4 0 51 0 0 ->
   l_uztwc (sac_land sac_wit_n st (4, 0)) = 50 /\
-  l_v (sac_land sac_wit_n st (4, 0)) = sac_pass sac_wit_n 50 1 4 (mk_inner 54 0 0 0 4 0 0 0 (1/25)).
+  l_v (sac_land sac_wit_n st (4, 0)) = sac_pass sac_wit_n 50 1 4 (mk_inner 51 0 0 0 4 0 0 0 (1/25)).
 Proof.
   intros H. st6_subst st H.
   unfold sac_wit_n. eval_land. split; [lra|].
@@ -398,21 +399,21 @@ Proof.
 Qed.
 
 Lemma sac_wit_n_inc21 c : c_pinc c = 2 -> c_dinc c = 1/2 -> c_duz c = 1 ->
-  sac_inc sac_wit_n 50 c (mk_inner 54 0 0 0 4 0 0 0 (1/25)) = mk_inner 24 0 0 0 2 4 0 0 (1/25).
+  sac_inc sac_wit_n 50 c (mk_inner 51 0 0 0 4 0 0 0 (1/25)) = mk_inner 51 0 0 0 2 4 0 0 (1/25).
 Proof.
   intros H1 H2 H3. destruct c as [cp cd cu cl cs]; cbn [c_pinc c_dinc c_duz] in *; subst.
   unfold sac_wit_n, mk_inner. eval_inc.
 Qed.
 
 Lemma sac_wit_n_inc22 c : c_pinc c = 2 -> c_dinc c = 1/2 -> c_duz c = 1 ->
-  sac_inc sac_wit_n 50 c (mk_inner 24 0 0 0 2 4 0 0 (1/25)) = mk_inner (-1326) 0 0 0 2 6 0 0 (1/25).
+  sac_inc sac_wit_n 50 c (mk_inner 51 0 0 0 2 4 0 0 (1/25)) = mk_inner 51 0 0 0 2 6 0 0 (1/25).
 Proof.
   intros H1 H2 H3. destruct c as [cp cd cu cl cs]; cbn [c_pinc c_dinc c_duz] in *; subst.
   unfold sac_wit_n, mk_inner. eval_inc.
 Qed.
 
 Lemma sac_wit_n_pass2 :
-  sac_pass sac_wit_n 50 1 4 (mk_inner 54 0 0 0 4 0 0 0 (1/25)) = mk_inner (-1326) 0 0 0 2 6 0 0 (1/25).
+  sac_pass sac_wit_n 50 1 4 (mk_inner 51 0 0 0 4 0 0 0 (1/25)) = mk_inner 51 0 0 0 2 6 0 0 (1/25).
 Proof.
   unfold sac_wit_n at 1. unfold mk_inner at 1. eval_pass.
   fold sac_wit_n.
@@ -421,57 +422,19 @@ Proof.
   reflexivity.
 Qed.
 
-(** ... and it is NEGATIVE after the second wet day (54 mm then 4 mm of rain, no PET) from the empty
-    state: ratio = (adimc - uztwc)/lztwm is squared without the Fortran guards, so addro exceeds pinc *)
-Theorem sac_adimc_negative_refuted : exists p io, sac_ok p = true /\ io_nonneg io /\
-  let st := fst (sac_run p (sac_init p 0 0 0 0 0 0) io) in
-  adimc st < 0.
+(** 54 mm then 4 mm of rain from the empty state (lztwm = 1, lzpk = lzsk = 0, uzk = 1): the store
+    stays at its capacity 51 (it was -1326) *)
+Theorem sac_adimc_negative_fixed :
+  adimc (fst (sac_run sac_wit_n (sac_init sac_wit_n 0 0 0 0 0 0) [(54, 0); (4, 0)])) = 51.
 Proof.
-  exists sac_wit_n, [(54, 0); (4, 0)]. split; [unfold sac_wit_n; sac_ok_solve|]. split.
-  - repeat constructor; cbn; lra.
-  - cbv zeta. unfold sac_run. rewrite !run_fst_cons. cbn [run fst].
-    destruct sac_wit_n_land1 as [E1 E2]. rewrite sac_wit_n_pass1 in E2.
-    pose proof (st6_step _ _ _ _ _ E1 E2) as S1. unfold mk_inner in S1; sac_proj_in S1.
-    destruct (sac_wit_n_land2 _ S1) as [F1 F2]. rewrite sac_wit_n_pass2 in F2.
-    destruct (st6_step _ _ _ _ _ F1 F2) as (_ & _ & _ & E & _).
-    rewrite E. unfold mk_inner; sac_proj. lra.
+  unfold sac_run. rewrite !run_fst_cons. cbn [run fst].
+  destruct sac_wit_n_land1 as [E1 E2]. rewrite sac_wit_n_pass1 in E2.
+  pose proof (st6_step _ _ _ _ _ E1 E2) as S1. unfold mk_inner in S1; sac_proj_in S1.
+  destruct (sac_wit_n_land2 _ S1) as [F1 F2]. rewrite sac_wit_n_pass2 in F2.
+  destruct (st6_step _ _ _ _ _ F1 F2) as (_ & _ & _ & E & _).
+  rewrite E. unfold mk_inner; sac_proj. reflexivity.
 Qed.
 
-(** (b'), run level: one dry day from an initial state inside all store bounds
-    (UprTensionWater 50, UprFreeWater 4, LwrSupplFreeWater 0.9, AdditionalImperviousStore 50) leaves the
-    state LwrSupplFreeWater = -2.3 *)
-Lemma sac_wit_b_land :
-  l_v (sac_land sac_wit_b (sac_init sac_wit_b 50 4 0 0 (9/10) 50) (0, 0)) =
-  sac_pass sac_wit_b 50 1 0 sac_wit_b_v.
-Proof.
-  unfold sac_wit_b. eval_land.
-  unfold sac_wit_b_v. f_equal; try lra. apply sac_inner_ext; lra.
-Qed.
-
-Lemma sac_wit_b_pass :
-  sac_pass sac_wit_b 50 1 0 sac_wit_b_v = sac_inc sac_wit_b 50 sac_wit_b_c sac_wit_b_v.
-Proof.
-  unfold sac_wit_b at 1. unfold sac_wit_b_v at 1. eval_pass. fold sac_wit_b sac_wit_b_v.
-  f_equal. unfold sac_wit_b_c. f_equal; lra.
-Qed.
-
-Theorem sac_lzfsc_negative_run_refuted : exists p s0 s1 s2 s3 s4 s5 io, sac_ok p = true /\ io_nonneg io /\
-  0 <= s0 <= uztwm p /\ 0 <= s1 <= uzfwm p /\ 0 <= s2 <= lztwm p /\ 0 <= s3 <= lzfpm p /\
-  0 <= s4 <= lzfsm p /\ s0 <= s5 <= uztwm p + lztwm p /\
-  lzfsc (fst (sac_run p (sac_init p s0 s1 s2 s3 s4 s5) io)) < 0.
-Proof.
-  exists sac_wit_b, 50, 4, 0, 0, (9/10), 50, [(0, 0)].
-  split; [unfold sac_wit_b; sac_ok_solve|]. split; [repeat constructor; cbn; lra|].
-  unfold sac_run. rewrite run_fst_cons. cbn [run fst].
-  unfold sac_step. cbn [fst lzfsc]. rewrite sac_wit_b_land, sac_wit_b_pass, sac_wit_b_eval.
-  unfold sac_wit_b; sac_proj; runfold. lra.
-Qed.
-
-(** (a''), lztwm = 10 mm, one wet day from a state inside every individual store bound but with
-    adimc < uztwc - lztwm (reachable after a dry spell: the free-to-tension transfer of the land phase
-    raises uztwc without touching adimc).  The tension store fills (uztwc = 125), adimc = 35,
-    ratio = (35 - 125)/10 = -9 (no [ratio < 0 -> 0] guard), addro = 4 * 81 = 324 > pinc = 4,
-    adimc = 35 + 4 - 324 = -285; impervious runoff 97.49 mm from 29 mm of rain. *)
 Definition sac_wit_r : sac_par (T:=R) :=
   {| lzpk := 0; lzsk := 0; uzk := 1; uztwm := 125; uzfwm := 75; lztwm := 10; lzfsm := 25;
      lzfpm := 25; pfree := 6/100; rexp := 0; zperc := 40; side := 0; ssout := 0; pctim := 1/100;
@@ -487,19 +450,87 @@ Proof.
 Qed.
 
 Lemma sac_wit_r_pass :
-  sac_pass sac_wit_r 125 1 4 (mk_inner 35 0 0 0 0 0 0 0 (29/100)) = mk_inner (-285) 0 0 0 4 0 0 0 (9749/100).
+  sac_pass sac_wit_r 125 1 4 (mk_inner 35 0 0 0 0 0 0 0 (29/100)) = mk_inner 39 0 0 0 4 0 0 0 (29/100).
 Proof. unfold sac_wit_r, mk_inner. eval_pass. eval_inc. Qed.
 
-Theorem sac_adimc_ratio_negative_refuted : exists p s0 s1 s2 s3 s4 s5 io, sac_ok p = true /\ io_nonneg io /\
-  10 <= lztwm p /\
-  0 <= s0 <= uztwm p /\ 0 <= s1 <= uzfwm p /\ 0 <= s2 <= lztwm p /\ 0 <= s3 <= lzfpm p /\
-  0 <= s4 <= lzfsm p /\ 0 <= s5 <= uztwm p + lztwm p /\
-  adimc (fst (sac_run p (sac_init p s0 s1 s2 s3 s4 s5) io)) < 0.
+(** lztwm = 10, state (100,0,0,0,0,10) with adimc < uztwc - lztwm, 29 mm of rain: ratio is clamped at 0,
+    adimc = 35 + 4 = 39 (it was -285) and the impervious runoff is 0.29 mm (it was 97.49) *)
+Theorem sac_adimc_ratio_negative_fixed :
+  adimc (fst (sac_run sac_wit_r (sac_init sac_wit_r 100 0 0 0 0 10) [(29, 0)])) = 39 /\
+  map o_imperv (snd (sac_run sac_wit_r (sac_init sac_wit_r 100 0 0 0 0 10) [(29, 0)])) = [29/100].
 Proof.
-  exists sac_wit_r, 100, 0, 0, 0, 0, 10, [(29, 0)].
-  split; [unfold sac_wit_r; sac_ok_solve|]. split; [repeat constructor; cbn; lra|].
-  unfold sac_run. rewrite run_fst_cons. cbn [run fst].
   destruct sac_wit_r_land as [E1 E2]. rewrite sac_wit_r_pass in E2.
-  destruct (st6_step _ _ _ _ _ E1 E2) as (_ & _ & _ & E & _).
-  rewrite E. unfold sac_wit_r, mk_inner; sac_proj. lra.
+  split.
+  - unfold sac_run. rewrite run_fst_cons. cbn [run fst].
+    destruct (st6_step _ _ _ _ _ E1 E2) as (_ & _ & _ & E & _).
+    rewrite E. unfold mk_inner; sac_proj. reflexivity.
+  - unfold sac_run. cbn [run]. 
+    destruct (sac_step sac_wit_r (sac_init sac_wit_r 100 0 0 0 0 10) (29, 0)) as [s1 o] eqn:Es.
+    cbn [snd map]. f_equal.
+    assert (Eo : o = snd (sac_step sac_wit_r (sac_init sac_wit_r 100 0 0 0 0 10) (29, 0))) by (rewrite Es; reflexivity).
+    rewrite Eo. unfold sac_step. cbn [snd o_imperv]. rewrite E2. unfold mk_inner; sac_proj. reflexivity.
+Qed.
+
+Lemma sac_wit_b_eval :
+  sac_inc sac_wit_b 50 sac_wit_b_c sac_wit_b_v =
+  {| i_adimc := 50; i_alzfpc := 4; i_alzfsc := 9/10; i_flobf := 0; i_uzfwc := 0; i_floin := 0;
+     i_lztwc := 0; i_flosf := 0; i_roimp := 0 |}.
+Proof.
+  unfold sac_inc, sac_wit_b, sac_wit_b_c, sac_wit_b_v. sac_proj. runfold.
+  repeat eval1. sac_proj. apply sac_inner_ext; lra.
+Qed.
+
+Lemma sac_wit_b_land :
+  l_v (sac_land sac_wit_b (sac_init sac_wit_b 50 4 0 0 (9/10) 50) (0, 0)) =
+  sac_pass sac_wit_b 50 1 0 sac_wit_b_v.
+Proof.
+  unfold sac_wit_b. eval_land.
+  unfold sac_wit_b_v. f_equal; try lra. apply sac_inner_ext; lra.
+Qed.
+
+Lemma sac_wit_b_pass :
+  sac_pass sac_wit_b 50 1 0 sac_wit_b_v = sac_inc sac_wit_b 50 sac_wit_b_c sac_wit_b_v.
+Proof.
+  unfold sac_wit_b at 1. unfold sac_wit_b_v at 1. eval_pass. fold sac_wit_b sac_wit_b_v.
+  f_equal. unfold sac_wit_b_c. f_equal; lra.
+Qed.
+
+(** lzfsm = 1, lzfpm = 99, state (50, 4, 0, 0, 0.9, 50), one dry day: fracp = 1.8 is clamped at 1, all
+    4 mm of percolation go to the primary store and LwrSupplFreeWater stays 0.9 (it was -2.3) *)
+Theorem sac_lzfsc_negative_fixed :
+  lzfsc (fst (sac_run sac_wit_b (sac_init sac_wit_b 50 4 0 0 (9/10) 50) [(0, 0)])) = 9/10 /\
+  lzfpc (fst (sac_run sac_wit_b (sac_init sac_wit_b 50 4 0 0 (9/10) 50) [(0, 0)])) = 4.
+Proof.
+  unfold sac_run. rewrite run_fst_cons. cbn [run fst].
+  unfold sac_step. cbn [fst lzfsc lzfpc]. rewrite sac_wit_b_land, sac_wit_b_pass, sac_wit_b_eval.
+  unfold sac_wit_b; sac_proj; runfold. split; field.
+Qed.
+
+(** ** the witness for a negative actual ET (guards patch alone), on the code with the e5 clamp:
+    uztwm = uzfwm = lztwm = 10, adimp = 1/2, state (0, 10, 0, 0, 0, 0), no rain, PET 4 mm:
+    the transfer gives uztwc = 5, e5a = 4 * (0 - 0 - 5) / 20 = -1 is clamped to 0, actualET = 0. *)
+Definition sac_wit_e : sac_par (T:=R) :=
+  {| lzpk := 1/100; lzsk := 5/100; uzk := 3/10; uztwm := 10; uzfwm := 10; lztwm := 10; lzfsm := 25;
+     lzfpm := 60; pfree := 6/100; rexp := 1; zperc := 40; side := 0; ssout := 0; pctim := 1/100;
+     adimp := 1/2; sarva := 0; rserv := 3/10; uh1 := 8/10; uh2 := 1/10; uh3 := 5/100; uh4 := 3/100; uh5 := 2/100 |}.
+
+Lemma sac_wit_e_pre : let pre := sac_pre sac_wit_e (sac_init sac_wit_e 0 10 0 0 0 0) (0, 4) in
+  pr_e1 pre = 0 /\ pr_e2 pre = 0 /\ pr_e3 pre = 0 /\ pr_e5 pre = 0.
+Proof.
+  cbv zeta. unfold sac_wit_e. eval_pre. sac_proj. repeat split; lra.
+Qed.
+
+Lemma sac_channel_e4_0 p q evapt a b c d : sarva p = 0 -> c_e4 (sac_channel p q evapt a b c d) = 0.
+Proof.
+  intros H. unfold sac_channel. cbn [c_e4]. runfold. rewrite H, Rmult_0_r.
+  apply Rmin_left. apply Rmax_l.
+Qed.
+
+Theorem sac_aet_negative_fixed :
+  o_aet (snd (sac_step sac_wit_e (sac_init sac_wit_e 0 10 0 0 0 0) (0, 4))) = 0.
+Proof.
+  destruct sac_wit_e_pre as (E1 & E2 & E3 & E5).
+  unfold sac_step. cbn [snd o_aet fst]. rewrite sac_channel_e4_0 by reflexivity.
+  unfold sac_land. cbn [l_e1 l_e2 l_e3 l_e5]. rewrite E1, E2, E3, E5.
+  unfold sac_wit_e; sac_proj; runfold. lra.
 Qed.
